@@ -148,4 +148,6 @@ def check(prog: Program, rep):
     from rules.values import solver_value_reads, data_rhs_converted
     solver_value_reads(prog, rep, "C15.R7", ["MinGenSet", "MinSetCover"])
     data_rhs_converted(prog, rep, "C15.R7", {"MinGenSet": ["_create_solver", "_encode_partition_constraints"]})
+    from rules.values import float_sum_exact_compare
+    float_sum_exact_compare(prog, rep, "C15.R7", "MinGenSet", "__init__")
 
